@@ -1,15 +1,19 @@
 META = {
  'manifest': {'text': 'Bounded symbolic model checking of the real frequent_items_sketch<uint64_t> with an 8-slot map (purge above 6 active items): concrete distinct items with symbolic weights, updates and one merge that overflows the receiving map (purge during the replay of the other sketch): for every item lower <= true weight <= upper, estimate in between, upper - lower = maximum error, total weight exact, NO_FALSE_NEGATIVES / NO_FALSE_POSITIVES result-set guarantees, descending order.',
-              'note': 'item values concrete (hash-table shape concrete), weights symbolic <= 1000; the epsilon clause, string items and serialization outside'},
+              'note': 'item values and all but one weight concrete (a symbolic weight makes the zero-weight early return a symbolic branch; each one doubles the state symex keeps), one weight symbolic 1..1000; merges that purge during the replay and the result-set queries are thorough-only; the epsilon clause, string items and serialization outside'},
  'functions_encoded': ['frequent_items_sketch::update/merge/get_estimate/get_lower_bound/get_upper_bound/get_maximum_error/get_total_weight/get_frequent_items', 'reverse_purge_hash_map::adjust_or_insert/resize/purge/subtract_and_keep_positive_only/hash_delete/get/internal_adjust_or_insert', 'std::nth_element instantiation (median of the purge sample)', 'std::sort of the result rows'],
- 'bounds': 'lg_max_map_size = lg_start = 3; <= 9 distinct items 1..9, weights 0..1000 symbolic; one merge; threshold symbolic',
+ 'bounds': 'lg_max_map_size = lg_start = 3 (8 slots); <= 7 distinct concrete items, ONE symbolic weight 1..1000 (others concrete); one purge (7th item) or one merge without purge in the quick tier',
  'stubs': [], 'assumes': [], 'outside': ['epsilon bound (needs the purge-sample statistics)', 'symbolic item values (probe sequences)', 'larger maps, map growth, string items'],
 }
 def queries(tier):
     qs = []
     # (NA, NB, overlap, merge, NSYM): concrete distinct items; only the last NSYM weights are symbolic
-    for (na, nb, ov, mg, ns) in [(3, 0, 0, 0, 1), (7, 0, 0, 0, 1), (5, 3, 0, 1, 1), (5, 3, 1, 1, 1), (6, 1, 0, 1, 1)] + ([(7, 0, 0, 0, 2), (5, 3, 0, 1, 2), (4, 4, 2, 1, 2), (6, 3, 0, 1, 1)] if tier == 'thorough' else []):
-        qs.append(Q(f'fi_a{na}_b{nb}_ov{ov}_m{mg}_s{ns}', 'fi', 'c12_fi.c', defs={'NA': na, 'NB': nb, 'OV': ov, 'MERGE': mg, 'NSYM': ns}, unwind=12,
-                    unwindset={'^(harness|weight|verif_mem.*|verif_new.*)$': 40}, timeout=(400 if tier == 'quick' else 1800), native_vectors=200,
-                    c_defs={'VERIF_NEW_CAPN': 16, 'VERIF_VEC_CAP': 10}, mem_gb=(10 if tier == 'quick' else 28)))
+    for (na, nb, ov, mg, ns) in [(3, 0, 0, 0, 1), (7, 0, 0, 0, 1), (3, 3, 0, 1, 1), (4, 3, 1, 1, 1)] + ([(6, 1, 0, 1, 1), (5, 3, 0, 1, 1), (5, 3, 1, 1, 1), (7, 0, 0, 0, 2)] if tier == 'thorough' else []):
+        qs.append(Q(f'fi_a{na}_b{nb}_ov{ov}_m{mg}_s{ns}', 'fi', 'c12_fi.c', defs=dict({'NA': na, 'NB': nb, 'OV': ov, 'MERGE': mg, 'NSYM': ns}, **({'SYMPOS': 0} if mg else {})), unwind=12,
+                    unwindset={'^(harness|weight|verif_mem.*|verif_new.*)$': 40, 'introselect|heap_select|insertion_sort|adjust_heap|unguarded': 9}, timeout=(500 if tier == 'quick' else 3000), native_vectors=200,
+                    c_defs=dict({'VERIF_NEW_CAPN': 16, 'VERIF_VEC_CAP': 10}, **({'VERIF_CUT_FI_PURGE': None} if na + nb - ov <= 6 else {})), mem_gb=(20 if tier == 'quick' else 28)))
+    for (na, ns) in ([] if tier == 'quick' else [(3, 1), (5, 1)]):
+        qs.append(Q(f'fi_resultsets_a{na}_s{ns}', 'fi', 'c12_fi.c', defs={'NA': na, 'NB': 0, 'OV': 0, 'MERGE': 0, 'NSYM': ns, 'RESULTSETS': None}, unwind=12,
+                    unwindset={'^(harness|weight|verif_mem.*|verif_new.*)$': 40, 'introselect|heap_select|insertion_sort|adjust_heap|unguarded': 9}, timeout=(400 if tier == 'quick' else 1800), native_vectors=200,
+                    c_defs={'VERIF_NEW_CAPN': 16, 'VERIF_VEC_CAP': 10}, mem_gb=(20 if tier == 'quick' else 28)))
     return qs
